@@ -87,10 +87,11 @@ fn run_script(
         for sp in [spurious, spurious2].iter().flatten() {
             if sp.0 == i {
                 let t = sp.1;
+                // (a task that the script holds back is, by definition, not polled)
                 let exists = match t {
-                    Tid::Ctx => sys.w.ctx.alive(),
-                    Tid::Op(k) => k < sys.w.ops.len() && sys.w.ops[k].alive(),
-                    Tid::Stream(k) => k < sys.w.streams.len() && sys.w.streams[k].alive(),
+                    Tid::Ctx => sys.w.ctx.alive() && !sys.w.ctx.held,
+                    Tid::Op(k) => k < sys.w.ops.len() && sys.w.ops[k].alive() && !sys.w.ops[k].held,
+                    Tid::Stream(k) => k < sys.w.streams.len() && sys.w.streams[k].alive() && !sys.w.streams[k].held,
                 };
                 if exists {
                     applicable = true;
@@ -155,6 +156,16 @@ pub fn scenario(name: &str, params: &Value) -> Scenario {
                     if i != j && !same_target {
                         e.push(Ev::DeliverBatch(vec![singles[i].clone(), singles[j].clone()]));
                     }
+                }
+            }
+            // the context task is not scheduled for a while: several requests / packets pile up and
+            // are served by one poll (whatever the library does between two of them - yield, batch -
+            // must be backed by a wakeup)
+            if sys.m.ctx == CtxSt::Running {
+                if sys.m.ctx_held {
+                    e.push(Ev::Release(Tid::Ctx));
+                } else {
+                    e.push(Ev::Hold(Tid::Ctx));
                 }
             }
             if e.is_empty() {
